@@ -5,15 +5,12 @@ import Mathlib.Data.List.Perm.Lattice
 every declarable symbol exactly once, positions of the declarations. -/
 namespace Decls
 
-/-- well-formed symbol table: distinct names, the argument list names exactly the argument symbols -/
+/-- well-formed symbol table: distinct names (Python dict keys) -/
 structure Wf (u : Unit) : Prop where
   nodup : (names u.syms).Nodup
-  argsNodup : u.args.Nodup
-  argCls : ∀ s ∈ u.syms, s.cls = .arg → s.name ∈ u.args
 
 instance (u : Unit) : Decidable (Wf u) :=
-  if h : (names u.syms).Nodup ∧ u.args.Nodup ∧ ∀ s ∈ u.syms, s.cls = .arg → s.name ∈ u.args
-  then isTrue ⟨h.1, h.2.1, h.2.2⟩ else isFalse (fun w => h ⟨w.nodup, w.argsNodup, w.argCls⟩)
+  if h : (names u.syms).Nodup then isTrue ⟨h⟩ else isFalse (fun w => h w.nodup)
 
 theorem eq_of_name_eq {l : List Sym} (hnd : (names l).Nodup) {a b : Sym} (ha : a ∈ l) (hb : b ∈ l)
     (h : a.name = b.name) : a = b := by
@@ -88,26 +85,6 @@ theorem filterMap_findSym_perm {l : List Sym} (hnd : (names l).Nodup) {order : L
   · intro h
     refine List.mem_filterMap.mpr ⟨s.name, hp.symm.subset (List.mem_map.mpr ⟨s, h, rfl⟩), findSym_of_mem hnd h⟩
 
-theorem argSyms_spec {syms : List Sym} : ∀ {args : List Name} {as : List Sym}, argSyms syms args = some as →
-    names as = args ∧ ∀ s ∈ as, s ∈ ofCls syms .arg := by
-  intro args
-  induction args with
-  | nil => intro as h; simp [argSyms] at h; subst h; simp [names]
-  | cons a r ih =>
-    intro as h
-    simp only [argSyms] at h
-    split at h
-    · rename_i s l hs hl
-      cases h
-      obtain ⟨h1, h2⟩ := ih hl
-      obtain ⟨h3, h4⟩ := findSym_some hs
-      refine ⟨by simp [names, h4] at h1 ⊢; exact h1, ?_⟩
-      intro x hx
-      rcases List.mem_cons.mp hx with rfl | hx
-      · exact h3
-      · exact h2 x hx
-    · cases h
-
 theorem count_ofCls (l : List Sym) (c : Cls) (s : Sym) :
     (ofCls l c).count s = if s.cls = c then l.count s else 0 := by
   unfold ofCls
@@ -140,10 +117,12 @@ theorem pkeys_paramGraph (syms : List Sym) : pkeys (paramGraph syms) = names (sy
 
 /-- shape of a successful `gen_decls` -/
 theorem genDecls_ok {u : Unit} {ds : List Sym} (h : genDecls u = .ok ds) :
-    ∃ order as, orderParams (paramGraph u.syms) = some order ∧ argSyms u.syms u.args = some as ∧
-      ds = ofCls u.syms .iface ++ paramSyms u.syms order ++ as ++ ofCls u.syms .dtype ++ ofCls u.syms .other ∧
+    ∃ order, orderParams (paramGraph u.syms) = some order ∧
+      ds = ofCls u.syms .iface ++ paramSyms u.syms order ++ ofCls u.syms .arg ++ ofCls u.syms .dtype
+        ++ ofCls u.syms .other ∧
       ((∃ s ∈ u.syms, s.cls = .unresolved) → hasWildcard u = true) ∧
-      (∀ s ∈ u.syms, s.cls ≠ .routineBad) := by
+      (∀ s ∈ u.syms, s.cls ≠ .routineBad) ∧
+      (u.isModule = true → ofCls u.syms .arg = []) := by
   unfold genDecls at h
   split at h
   · cases h
@@ -156,20 +135,23 @@ theorem genDecls_ok {u : Unit} {ds : List Sym} (h : genDecls u = .ok ds) :
       · rename_i order ho
         split at h
         · cases h
-        · split at h
-          · cases h
-          · rename_i as ha
-            cases h
-            refine ⟨order, as, ho, ha, rfl, ?_, ?_⟩
-            · rintro ⟨s, hs, hc⟩
-              by_contra hw
-              apply h1
-              simp only [Bool.and_eq_true, List.any_eq_true, Bool.not_eq_true']
-              exact ⟨⟨s, hs, by simp [hc]⟩, by simpa using hw⟩
-            · intro s hs hc
-              apply h2
-              simp only [List.any_eq_true]
-              exact ⟨s, hs, by simp [hc]⟩
+        · rename_i h3
+          cases h
+          refine ⟨order, ho, rfl, ?_, ?_, ?_⟩
+          · rintro ⟨s, hs, hc⟩
+            by_contra hw
+            apply h1
+            simp only [Bool.and_eq_true, List.any_eq_true, Bool.not_eq_true']
+            exact ⟨⟨s, hs, by simp [hc]⟩, by simpa using hw⟩
+          · intro s hs hc
+            apply h2
+            simp only [List.any_eq_true]
+            exact ⟨s, hs, by simp [hc]⟩
+          · intro hm
+            by_contra hne
+            apply h3
+            simp only [Bool.and_eq_true, Bool.not_eq_true', List.isEmpty_eq_false_iff]
+            exact ⟨hm, hne⟩
 
 theorem paramSyms_perm {u : Unit} (w : Wf u) {order : List Name}
     (ho : orderParams (paramGraph u.syms) = some order) :
@@ -183,30 +165,14 @@ theorem paramSyms_perm {u : Unit} (w : Wf u) {order : List Name}
   · exact filterMap_findSym_perm hnd hp
   · exact names_filterMap_findSym (fun n hn => hp.subset hn)
 
-theorem argSyms_perm {u : Unit} (w : Wf u) {as : List Sym} (ha : argSyms u.syms u.args = some as) :
-    as.Perm (ofCls u.syms .arg) := by
-  obtain ⟨h1, h2⟩ := argSyms_spec ha
-  have hndA := names_filter_nodup w.nodup (fun s => s.cls == Cls.arg)
-  have hnd1 : as.Nodup := List.Nodup.of_map _ (by show (names as).Nodup; rw [h1]; exact w.argsNodup)
-  have hnd2 : (ofCls u.syms .arg).Nodup := List.Nodup.of_map _ hndA
-  rw [List.perm_ext_iff_of_nodup hnd1 hnd2]
-  intro s
-  refine ⟨h2 s, fun hs => ?_⟩
-  have hs' := List.mem_filter.mp hs
-  have hin : s.name ∈ u.args := w.argCls s hs'.1 (by simpa using hs'.2)
-  rw [← h1] at hin
-  obtain ⟨s', hs1, hs2⟩ := List.mem_map.mp hin
-  have := eq_of_name_eq hndA (h2 s' hs1) hs hs2
-  rwa [← this]
-
 /-- every declarable symbol is declared exactly once -/
 theorem genDecls_perm {u : Unit} (w : Wf u) {ds : List Sym} (h : genDecls u = .ok ds) :
     ds.Perm (u.syms.filter (fun s => s.cls.declarable)) := by
-  obtain ⟨order, as, ho, ha, rfl, _, _⟩ := genDecls_ok h
+  obtain ⟨order, ho, rfl, _, _, _⟩ := genDecls_ok h
   refine List.Perm.trans ?_ (partition_perm u.syms)
   have hp := (paramSyms_perm w ho).2.1
-  have hq := argSyms_perm w ha
-  exact ((((List.Perm.refl _).append hp).append hq).append (List.Perm.refl _)).append (List.Perm.refl _)
+  exact ((((List.Perm.refl _).append hp).append (List.Perm.refl _)).append (List.Perm.refl _)).append
+    (List.Perm.refl _)
 
 theorem genDecls_names_nodup {u : Unit} (w : Wf u) {ds : List Sym} (h : genDecls u = .ok ds) :
     (names ds).Nodup := by
